@@ -7,6 +7,7 @@ import Goat.Driver.Scope
 import Goat.Driver.Opt
 import Goat.Driver.Check
 import Goat.Driver.IntMap
+import Goat.Driver.CF
 /-! goatmodel: one operation per input line, one canonical output line per operation. -/
 open Goat.Driver
 
@@ -22,6 +23,7 @@ def step (st : DriverState) (line : String) : DriverState × String :=
   | "load" :: args => (st, loadCmd args)
   | "tsort" :: args => (st, tsortCmd args)
   | "opt" :: args => (st, optCmd args)
+  | "cf" :: args => (st, cfCmd args)
   | "imap" :: args => let (s, o) := imapCmd st.imap args; ({ st with imap := s }, o)
   | "verify" :: args => (st, verifyCmd args)
   | "effect" :: args => (st, effectCmd args)
